@@ -178,7 +178,9 @@ def corrupt(r, data, how):
     elif x < 0.6:
         k = r.choice(sorted(root))
         root[k] = r.choice([0, 1, 2, 3, -1, 2 ** 70, b'', b'x' * 19, b'x' * 21, b'y' * 47, b'y' * 49, [], [1], {}, {b'a': 1},
-                            b'ping', b'store', b'nope', [b'k' * 48], [b'k' * 47], [{}], [[]]])
+                            b'ping', b'store', b'nope', [b'k' * 48], [b'k' * 47], [{}], [[]],
+                            [7] * 20, [7] * 48, [b'a'] * 20, [b'a'] * 48, {i: i for i in range(20)}, {i: i for i in range(48)},
+                            [[1]] * 20, [300] * 48])
     elif x < 0.7:
         return data + _rb(r, r.randint(1, 20))           # trailing bytes
     elif x < 0.8:
@@ -252,16 +254,28 @@ def snapshot(proto):
 
 
 SNAP_NAMES = ('routing table', 'bucket ranges', 'data store', 'add queue', 'remove queue', 'ping queue')
+# reference errors that mean "these bytes are not bencode at all" -> site class used in violations
+ENCODING_LEVEL = {
+    'trailing bytes': 'trailing', 'truncated': 'truncated', 'unterminated list': 'truncated', 'unterminated dict': 'truncated',
+    'unterminated integer': 'truncated', 'string runs past end': 'truncated', 'empty integer': 'token', 'bad integer': 'token',
+    'leading zero': 'token', 'negative zero': 'token', 'bad length': 'token', 'no colon': 'token', 'bad type byte': 'token',
+    'empty': 'truncated',
+}
 
 
 def judge_delivery(run, net, ep, data, src, how):
     """Deliver `data` to the real protocol behind endpoint `ep` and check it per its class."""
     from lbry.dht.serialization.datagram import decode_datagram, RequestDatagram, ResponseDatagram, ErrorDatagram
     proto = ep.protocol
+    enc_error = None
     try:
         ref = bref.parse_message(data)
     except bref.RefError:
         ref = None
+        try:
+            bref.decode(data)
+        except bref.RefError as e:
+            enc_error = str(e)
     arm_guard(len(data))
     try:
         prod = decode_datagram(data)
@@ -320,7 +334,28 @@ def judge_delivery(run, net, ep, data, src, how):
                           f'recording a failure for the sender (product decoder raised {type(prod_exc).__name__})',
                           exc=type(prod_exc).__name__)
             return False
+    elif enc_error in ENCODING_LEVEL:
+        # (c1) not even bencode (truncated, trailing bytes, malformed integer / length tokens): the statement names
+        # truncations and mutations explicitly - such a datagram must be dropped, not handled as the message it
+        # resembles
+        run.probes['class_c1_malformed_encoding'] += 1
+        run.probes['state_compared'] += 1
+        after = snapshot(proto)
+        what = ENCODING_LEVEL[enc_error]
+        if after[:3] != before[:3]:
+            which = [SNAP_NAMES[i] for i in range(3) if before[i] != after[i]]
+            run.violation('C17.malformed_changed_state', f'a {how} datagram that is not valid bencode ({enc_error}) was handled '
+                          f'as a {type(prod).__name__} and changed {which}: {data[:120]!r}', what=what)
+            return False
+        rec = proto.peer_manager._rpc_failures.get((src[0], src[1]), (None, None))
+        if rec[1] != now:
+            run.violation('C17.malformed_not_dropped', f'a {how} datagram that is not valid bencode ({enc_error}) was handled as '
+                          f'a {type(prod).__name__} instead of being dropped with a failure recorded for {src}: {data[-40:]!r}',
+                          what=what)
+            return False
     else:
+        # (c2) valid bencode that is not a protocol message by the reference schema (unknown method, extra keys,
+        # odd field types, unsorted keys, nesting beyond the reference limit): only "no exception escapes"
         run.probes['class_c_lenient'] += 1
     return True
 
